@@ -39,7 +39,8 @@ TRUSTED = [
     "K = (int)(3*perplexity) (PrimFloat, vm_compute)",
     "perplexity loop: tied (1) through the EXTRACTED search Tsne_PerpRed_Model.perp_row_r (proved to return what "
     "Tsne_Model.perp_loop returns, perplexity_reduced_model_equiv) with binary64 exp/log of the OCaml runtime as the "
-    "oracles, on selected rows of small dyadic cases, 1e-9 per entry, and (2) on every row through a Python "
+    "oracles, on selected rows of small dyadic cases (same search: 1e-16 observed; the verdict threshold is the 2e-4 of (2), "
+    "a deviation above 1e-9 is counted in the evidence: another search path that reaches the target still meets the property), and (2) on every row through a Python "
     "transliteration in binary64, 2e-4 per entry (any equally valid search path passes); spec (entropy, Gaussian "
     "shape) on every row",
     "OpenMP: the models are serial programs; the check scans tsne.hpp / quadtree.hpp / vptree.hpp / methods/tsne.hpp for "
@@ -430,7 +431,7 @@ def gen_cases(ctx, rng, scale):
     # GM: computeGradient against the EXTRACTED model (Tsne_BH_Model.bh_gradient on c18's tsne_tree) on small
     # dyadic maps, theta in {0, 1/8, 1/2, 1}
     for j in range(4 * scale):
-        N = rng.choice([2, 3, 4, 6, 8, 12, 16])
+        N = rng.choice([2, 3, 4, 5, 6, 8, 8, 12])
         if j % 4 == 3 and N >= 4:
             base = distinct_points(rng, max(2, N // 2), 2, "dyadic")
             Y = [list(base[i]) if i < len(base) else list(rng.choice(base)) for i in range(N)]
@@ -561,21 +562,33 @@ def pr_line(self_idx, perp, dd):
                                        fr(Fraction(DBL_MIN)), len(dd), " ".join(fr(x) for x in dd))
 
 
+PRSTAT = {"rows": 0, "not_found": 0, "max_dev": 0.0, "differ_over_1e-9": 0}
+
+
 def pr_handler(what, n, row, skip):
     """compare the implementation's row with the extracted model's; rows on which the model's search does not end
-    with found (target entropy unattainable in binary64) are left to the spec checks."""
+    with found (target entropy unattainable in binary64) are left to the spec checks.  The same search gives the
+    same row to 1e-16; an implementation that reaches the target entropy along ANOTHER path still meets the property
+    (its row is within ROW_TOL): counted in the evidence, no verdict."""
     def handler(out):
         if not out or out[0] == "NONE" or out[0] != "1":
+            PRSTAT["not_found"] += 1
             return None
         mrow = [hx(t) for t in out[2:]]
         if len(mrow) != len(row):
             return ("mismatch", "%s row %d: extracted perplexity search returns %d entries for %d" % (what, n, len(mrow), len(row)))
+        PRSTAT["rows"] += 1
+        dev = 0.0
         for m in range(len(row)):
             if m == skip:
                 continue
-            if row[m] is None or abs(mrow[m] - row[m]) > 1e-9:
+            if row[m] is None or abs(mrow[m] - row[m]) > ROW_TOL:
                 return ("mismatch", "%s row %d entry %d: implementation %r, extracted perplexity search (beta = %r) %r" % (
                     what, n, m, row[m], hx(out[1]), mrow[m]))
+            dev = max(dev, abs(mrow[m] - row[m]))
+        PRSTAT["max_dev"] = max(PRSTAT["max_dev"], dev)
+        if dev > 1e-9:
+            PRSTAT["differ_over_1e-9"] += 1
         return None
     return handler
 
@@ -929,7 +942,11 @@ def check_one(ctx, c, payload, mout, post, i, gb_err, ci):
             found, mrow, _ = perp_row_mirror(dd, n, perp)
             # P[n,n] = DBL_MIN / sum_P: negligible unless every kernel value is in the denormal range; a sample
             # counted as its own neighbour would get the LARGEST entry of its row (>= 1/N)
-            if not (row[n] is not None and 0 <= row[n] < min(1e-3, 0.1 / N)):
+            # (data fed to this member function WITHOUT run()'s max-normalisation, i.e. the scaled copies: where the
+            # nearest distances are nearly tied the kernel works at exp(-700) and `DD * P` itself underflows for tiny
+            # DD, the search stalls and the row is what the last step left; run() never calls it that way: only rows
+            # on which the transliterated search converges are judged there)
+            if (found or not c.get("scale")) and not (row[n] is not None and 0 <= row[n] < min(1e-3, 0.1 / N)):
                 return ("violation", "P[%d,%d] = %r: a sample must not be its own neighbour" % (n, n, row[n]))
             why = check_cond_row(row, dd, [m for m in range(N) if m != n], perp, feasible=found and row[n] < 1e-12,
                                  extra_mass=row[n],
@@ -1816,7 +1833,8 @@ def run(ctx):
     errs = [e for e in stats["gb_err"] if None not in e]
     ctx.finish(
         evaluations=n, distinct_nontrivial=len(distinct),
-        rule="wave 2: + GM (computeGradient vs extracted bh_gradient, 1e-9), PR (rows vs extracted perplexity search, 1e-9), "
+        rule="wave 2: + GM (computeGradient vs extracted bh_gradient, 1e-9 of the term size), PR (rows vs extracted perplexity search: "
+             "2e-4 verdict, deviations above 1e-9 counted), "
              "scaled copies 2^-60..2^60 of the feature data in DD/ZM/PK/PD (same exact / spec checks) and of whole runs (spec "
              "checks; bit-identical embedding expected and counted, not a verdict), TG/TP (N ~ 1200-1500 under 1/8/16 OpenMP threads: computeGradient vs the quadtree's public "
              "interface point by point, bit-identical expected, > 1e-9 relative is a violation; K-NN similarities and "
@@ -1840,7 +1858,7 @@ def run(ctx):
                          "none found" if not par else "; ".join("%s:%d %s" % (f[0], f[1], f[2]) for f in par))],
         extra={"traces_validated_against_impl": n, "thread_streams": stats.get("threads"),
                "scale_twins_compared": stats.get("twins", 0), "scale_twins_differ": stats.get("twins_differ", 0),
-               "entropy_monotone_in_beta_observed": dict(MONO)})
+               "entropy_monotone_in_beta_observed": dict(MONO), "extracted_perplexity_rows": dict(PRSTAT)})
 
 
 def replay(ctx, case):
